@@ -24,6 +24,10 @@ Decided structurally:
                 caller passes an array of at least MAX_LENGTH bytes; no strcpy/strcat/sprintf/sscanf(%s) targets a fixed array
   C08.ladder    the numerical retry ladder ends in an error: the all-attempts-failed block of set_and_run_wrapper never completes
                 normally and the wrapper returns only the values its callers distinguish
+  C08.gotoloop  "the call returns": every cycle closed by a backward goto (a loop without a loop condition) carries an iteration budget
+                on every path from the label to the goto - a gate whose failing branch is a STOP error, the increment of a counter that
+                a test reads and that is not reset inside the cycle, or the raising of the goto guard's bound to the current value;
+                the three cycles of the published simplex routine cl1 are exempt by name with the algorithm's argument
 NOT decided: memory safety / absence of undefined behaviour for all byte sequences in general (no sound buffer or alias
 analysis of the 125 k-line engine is available here); std-library exceptions raised by input-dependent code are only
 censused (C08.stdthrow, informational).
@@ -230,6 +234,7 @@ def run(P, R, tier):
     restore_rules(P, R)
     grow_rule(P, R)
     ladder_rule(P, R, mt)
+    gotoloop_rule(P, R, mt)
     stdthrow_census(P, R, reach)
 
 
@@ -285,6 +290,180 @@ def ladder_rule(P, R, mt):
     if badc:
         R.info["C08.ladder caller testing another value"] = "%s:%d" % (badc[0]["q"], badc[1][1])
     R.ok(RULE, "callers", "%d direct comparisons of the result, all with MASS_BALANCE" % n) if not badc else R.ok(RULE, "callers", "a caller tests another value (informational)")
+
+
+def gotoloop_rule(P, R, mt):
+    """"makes the call return normally": a backward `goto` closes a loop that has no loop condition of its own, so nothing in its shape
+    bounds the number of repetitions.  Every such cycle in the engine must carry a budget: on EVERY path from the label to the goto
+    lies (a) a gate - a test one of whose branches never completes normally (error_msg(.., STOP)) -, or (b) the increment of a counter
+    that a relational test of the function reads, or (c) an assignment that raises the bound of the goto's own guard to the current value (`if (A > B) goto L` with
+    `B = A` after L, both variables: a high-water mark, the cycle repeats only when A exceeds every earlier value).  One refinement keeps the rule exact for the cvode retry: when the statement before the goto assigns a constant
+    to v and the labelled statement is `while (<test of v>)` that is true for that constant, the paths start in the loop body."""
+    RULE = "C08.gotoloop"
+    R.rule(RULE, "every cycle closed by a backward goto has an iteration budget on every path (gate ending in STOP, tested counter, or falsified guard)", minimum=8)
+    tab = load_table("c08_gotoloop_exempt.json")
+    R.table("c08_gotoloop_exempt.json", tab)
+    exempt = {r["cycle"]: r["reason"] for r in tab["cycles"]}
+    used = set()
+    ninst = 0
+    for key, f in sorted(P.functions.items()):
+        if not f.get("body") or f["file"].endswith((".h", ".hpp", ".hxx")):
+            continue
+        labels = {}
+        for x in T.walk(f["body"]):
+            if x[0] == "Label":
+                labels[x[2]] = x
+        if not labels:
+            continue
+        gotos = [x for x in T.walk(f["body"]) if x[0] == "Goto" and x[2] in labels and labels[x[2]][1] <= x[1]]
+        if not gotos:
+            continue
+        cfg = T.CFG(f, terminates=lambda n: mt.terminating(n, f))
+        # relational reads in the function
+        tested = set()
+        for x in T.walk(f["body"]):
+            if x[0] == "Bin" and x[2] in ("<", "<=", ">", ">=", "==", "!="):
+                for y in T.walk(x):
+                    if y[0] in ("Ref", "Member"):
+                        tested.add(T.text(y).replace(" ", ""))
+
+        first_label = min(l[1] for l in labels.values())
+        reset = set()
+        for x in T.walk(f["body"]):
+            if x[1] >= first_label:
+                if x[0] == "Bin" and x[2] == "=":
+                    reset.add(T.text(T.strip_casts(x[3])).replace(" ", ""))
+                if x[0] == "Decl":
+                    for d in x[2]:
+                        reset.add(d[0])
+        tested -= reset        # a counter that is (re)assigned after the label is a loop index, not a budget
+
+        def counter_inc(n):
+            for y in T.walk(n):
+                if y[0] == "Un" and y[2] in ("post++", "pre++", "++") and T.text(T.strip_casts(y[3])).replace(" ", "").lstrip("*(").rstrip(")") in tested:
+                    return T.text(y[3])
+                if y[0] == "Bin" and y[2] == "+=" and T.strip_casts(y[4])[0] == "Lit" and T.text(T.strip_casts(y[3])).replace(" ", "") in tested:
+                    return T.text(y[3])
+            return None
+        # gates: cond atoms of an If with a branch that never completes
+        gate_conds = set()
+        for x in T.walk(f["body"]):
+            if x[0] == "If" and T.is_node(x[3]):
+                for br in (x[3], x[4]):
+                    if T.is_node(br) and not any(y[0] in ("Goto", "Return", "Break", "Continue") for y in T.walk(br)) and never_completes(br, f, mt):
+                        gate_conds.add(id(x[2]))
+        by_label = {}
+        for g in gotos:
+            by_label.setdefault(g[2], []).append(g)
+        for lab, gs in sorted(by_label.items()):
+            labnode = labels[lab]
+            bad = []
+            why = set()
+            for g in gs:
+                gid = [n["id"] for n in cfg.nodes if n["n"] is g]
+                if not gid:
+                    continue
+                gid = gid[0]
+                # (c) guard of the goto: innermost If whose then-branch holds the goto
+                guard = None
+                for x in T.walk(f["body"]):
+                    if x[0] == "If" and T.is_node(x[3]) and any(y is g for y in T.walk(x[3])):
+                        guard = x
+                kill = None
+                if guard is not None:
+                    c = T.strip_casts(guard[2])
+                    if c[0] == "Bin" and c[2] in (">", "<", "!="):
+                        kill = (T.text(c[3]).replace(" ", ""), T.text(c[4]).replace(" ", ""))
+
+                def is_budget(node):
+                    n = node["n"]
+                    if not T.is_node(n):
+                        return None
+                    if node["kind"] == "cond" and id(n) in gate_conds:
+                        return "gate@%d" % n[1]
+                    ci = counter_inc(n)
+                    if ci:
+                        return "counter %s" % ci.strip()
+                    if kill:
+                        for y in T.walk(n):
+                            if y[0] == "Bin" and y[2] == "=" and T.strip_casts(y[4])[0] != "Lit" and {T.text(y[3]).replace(" ", ""), T.text(y[4]).replace(" ", "")} == set(kill):
+                                return "guard falsified (%s = %s)" % (T.text(y[3]), T.text(y[4]))
+                            if y[0] == "Decl":
+                                for d in y[2]:
+                                    if T.is_node(d[2]) and {d[0], T.text(d[2]).replace(" ", "")} == set(kill):
+                                        return "guard falsified (%s = %s)" % (d[0], T.text(d[2]))
+                    return None
+                # refinement: constant assigned just before the goto decides the labelled while
+                starts = [cfg.labels[lab]]
+                env = None
+                for blk in T.walk(f["body"]):
+                    if blk[0] == "Compound":
+                        for i, st in enumerate(blk[2]):
+                            if st is g and i > 0:
+                                pv = blk[2][i - 1]
+                                if T.is_node(pv) and pv[0] == "Bin" and pv[2] == "=" and T.strip_casts(pv[3])[0] in ("Ref", "Member"):
+                                    v = const_int(pv[4])
+                                    if v is not None:
+                                        env = (T.text(T.strip_casts(pv[3])).replace(" ", ""), v)
+                lst = labnode[3]
+                if env and T.is_node(lst) and lst[0] == "While":
+                    c = T.strip_casts(lst[2])
+                    if c[0] == "Bin" and c[2] in ("!=", "==") and T.text(T.strip_casts(c[3])).replace(" ", "") == env[0] and const_int(c[4]) is not None:
+                        truth = (env[1] != const_int(c[4])) if c[2] == "!=" else (env[1] == const_int(c[4]))
+                        if truth:
+                            cn = [n for n in cfg.nodes if n["n"] is lst[2] and n["kind"] == "cond"]
+                            if cn:
+                                # successors of the cond: the first is the loop exit, the rest the body
+                                starts = cn[0]["succ"][1:]
+                # is there a path starts -> goto avoiding budget nodes?
+                seen, st = set(), []
+                for s0 in starts:
+                    b = is_budget(cfg.nodes[s0])
+                    if b:
+                        why.add(b)
+                    else:
+                        seen.add(s0)
+                        st.append(s0)
+                reached = False
+                while st:
+                    x = st.pop()
+                    if x == gid:
+                        reached = True
+                        break
+                    for sx in cfg.nodes[x]["succ"]:
+                        if sx in seen:
+                            continue
+                        b = is_budget(cfg.nodes[sx])
+                        if b:
+                            why.add(b)
+                            continue
+                        seen.add(sx)
+                        st.append(sx)
+                if reached:
+                    bad.append(g)
+            ninst += 1
+            inst = "%s:%s" % (f["q"].split("::")[-1], lab)
+            row = "%s:%s" % (f["q"], lab)
+            if row in exempt:
+                used.add(row)
+                if bad:
+                    R.ok(RULE, inst, "exempt: " + exempt[row][:140])
+                else:
+                    R.info.setdefault("redundant_exemption_rows", []).append("C08.gotoloop:" + row)
+                    R.ok(RULE, inst, "budgeted (exemption row is redundant)")
+                continue
+            if bad:
+                R.violation(RULE, inst, "the cycle closed by `goto %s` (line%s %s) has a path from the label (line %d) back to the goto without any iteration budget: no gate ending in a "
+                            "STOP error, no tested counter, no falsified guard - for an input that keeps the goto's condition true the call never returns"
+                            % (lab, "s" if len(bad) > 1 else "", ", ".join(str(b[1]) for b in bad[:6]) + (" ..." if len(bad) > 6 else ""), labnode[1]),
+                            file=f["file"], line=bad[0][1], function=f["q"])
+            else:
+                R.ok(RULE, inst, "%d backward goto(s); budget: %s" % (len(gs), "; ".join(sorted(why))[:120]))
+    for row in exempt:
+        if row not in used:
+            R.anchor_missing(RULE, "exemption row `%s` names a cycle that no longer exists" % row)
+    if ninst < 8:
+        R.anchor_missing(RULE, "only %d labels with backward gotos found (8 confirmed: cl1 x3, calc_final_kinetic_reaction, rk_kinetics, set_and_run_wrapper, run_reactions, jacobian_pz, jacobian_sit)" % ninst)
 
 
 def never_completes(stmt, f, mt):
